@@ -36,7 +36,7 @@ STEP = {
 }
 PARTIALS = {"p": "{{ g.me }}{% increment c %}", "q": "{{ g.me }}{% increment c %}{% cycle 'a', 'b', 'c' %}", "base": "[{% block b %}{% endblock %}]"}
 MACRO = "{% macro m x, h %}{{ h.me }}{{ x }}{% endmacro %}"
-WAIT = 60.0
+WAIT = 300.0      # a gate that is not reached / opened within this time is a machinery failure (exit 2), never a verdict
 
 
 def concretize(prog, layout):
@@ -271,10 +271,10 @@ def run(tier: str) -> int:
         nvar = 2
     else:
         fam = [("n2", {"NTasks": "2", "MaxSteps": "2", "Kinds": kinds}),
-               ("n2l3", {"NTasks": "2", "MaxSteps": "3", "Kinds": '{"y", "inc", "cyc", "ifc", "asg", "incl", "ren"}'}),
+               ("n2l3", {"NTasks": "2", "MaxSteps": "3", "Kinds": '{"y", "inc", "cyc", "ifc", "asg", "incl"}'}),
                ("n3", {"NTasks": "3", "MaxSteps": "1", "Kinds": kinds}),
-               ("n3l2", {"NTasks": "3", "MaxSteps": "2", "Kinds": '{"y", "inc", "cyc", "ifc", "asg"}'})]
-        nvar = 4
+               ("n3l2", {"NTasks": "3", "MaxSteps": "2", "Kinds": '{"y", "inc", "cyc", "ifc"}'})]
+        nvar = 2
     jobs, names = [], []
     for tag, params in fam:
         cfg = gen_cfg("cfg/Interleave.tmpl", dict(params, Shared='"none"', Emit="INVARIANT Emit"), f"x03_{tag}")
